@@ -1,21 +1,74 @@
-# C04 - with TLS required nothing sensitive leaves before the link is encrypted: single inductive steps (see c04.h)
+# C04 - with TLS required nothing sensitive leaves before the link is encrypted: single inductive steps (see c04.h / h.cpp)
 TUS = ['src/client/QXmppConfiguration.cpp', 'src/base/QXmppStreamFeatures.cpp', 'src/base/QXmppStreamManagement.cpp', 'src/base/Stream.cpp', 'src/base/QXmppUtils.cpp',
-       'src/base/QXmppIq.cpp', 'src/base/QXmppStanza.cpp', 'src/base/QXmppNonSASLAuth.cpp', 'src/base/QXmppBindIq.cpp']
+       'src/base/QXmppIq.cpp', 'src/base/QXmppStanza.cpp', 'src/base/QXmppNonSASLAuth.cpp', 'src/base/QXmppBindIq.cpp', 'src/base/QXmppSasl.cpp']
 MODELS = ['qt_core.c', 'qt_list.c', 'qt_dom.c', 'qt_object.c', 'c04_models.c']
-def I(name, entry, cfg, bound, **kw):
-    d = dict(name=name, entry='h_' + entry, unwind=5, timeout_s=300, mem_gb=6, cdefs={'VP_CFG': cfg}, bound=bound); d.update(kw); return d
+PRE = ('pre-state: ARBITRARY private state with TLS required, link not encrypted, INV (listener = client itself%s, not authenticated): all configuration flags, '
+       'user/domain/password/resource <= 2 units, stream id/from/version, session / bind / stream-management / CSI / carbons flags, sequence counters arbitrary; ')
+Q = ('quick', 'thorough'); T = ('thorough',)
+# VP_CFG bits (c04.h): 1 local TLS support, 2 stored stream version decided by bit 8 (else symbolic), 32..64 STARTTLS offer,
+# 128..256 SASL2 offer, 512 pre-state "STARTTLS requested" (StarttlsManager listens), 1024.. event-specific case bits
+def I(name, entry, cfg, bound, tiers=Q, st=False, **kw):
+    d = dict(name=name, entry='h_' + entry, unwind=5, timeout_s=300, mem_gb=6, cdefs={'VP_CFG': cfg}, tiers=tiers,
+             bound=PRE % (' or the STARTTLS step (reached by a real features step)' if st else '') + 'event: ' + bound)
+    d.update(kw); return d
+LISTENERS = ['client', 'nonsasl', 'bind', 'sm']
+TLS = ['absent', 'optional', 'required']
+S2 = ['no SASL2', 'SASL2 without bind2', 'SASL2 with bind2 (1 feature)']
+QUICK_FEATURES = {(0, 1): 1, (1, 1): 2, (2, 1): 0, (1, 0): 1, (2, 0): 2}      # (tls, local ssl) -> SASL2 case that also runs in the quick tier
+INST = (
+    [I('start_%s' % LISTENERS[k], 'start', 1 | 16 | k << 10, 'socket started (handleStart); previous listener: ' + LISTENERS[k], tiers=Q if k == 0 else T) for k in range(4)]
+    + [I('start_starttls', 'start', 1 | 16 | 512, 'socket started while the STARTTLS step of the previous connection still listens', st=True, tiers=T)]
+    + [I('disconnected_%s' % LISTENERS[k], 'disconnected', 1 | 16 | k << 10, 'socket disconnected (_q_socketDisconnected, no further address / redirect); isAuthenticated and listener (%s) arbitrary' % LISTENERS[k],
+         tiers=Q if k == 1 else T) for k in range(4)]
+    + [I('features_tls%d_ssl%d_s%d' % (t, l, k), 'features', l | 16 | t << 5 | k << 7,
+         'handleStreamFeatures(f), f built through the real setters: STARTTLS %s, local TLS support %s, %s, mechanisms 0..1 (<= 2 units), legacy auth / bind / session / sm / csi modes arbitrary' % (TLS[t], bool(l), S2[k]),
+         tiers=Q if QUICK_FEATURES.get((t, l)) == k else T) for t in (0, 1, 2) for l in (0, 1) for k in (0, 1, 2)]
+    + [I('stream_pre%d_el%d%s' % (pv, ev, '_st' if st else ''), 'stream', 1 | 2 | pv << 3 | st << 9 | (ev | 2 | 4) << 10,
+         'handleStream(<stream:stream id from%s/>), values <= 2..3 arbitrary units; stored stream version %s' % (' version' if ev else '', 'non-empty' if pv else 'empty'),
+         st=bool(st), tiers=Q if (pv, ev, st) in ((0, 0, 0), (0, 1, 0), (0, 0, 1)) else T) for pv in (0, 1) for ev in (0, 1) for st in (0, 1)]
+    + [I('stream_noattr', 'stream', 1 | 2, 'handleStream(<stream:stream/>) without any attribute, nothing stored yet', tiers=T)]
+    + [I('packet_starttls_ns%d' % n, 'packet_starttls', 1 | 16 | 512 | n << 10,
+         'handlePacketReceived(el), el = arbitrary tag <= 8 units in %s (covers <proceed/>, <failure/>, anything else)' % ('urn:ietf:params:xml:ns:xmpp-tls' if n else 'an arbitrary namespace <= 2 units'),
+         st=True, tiers=Q if n else T) for n in (0, 1)]
+    + [I('packet_generic_ns%d' % n, 'packet_client', 1 | 16 | (0 | n << 2) << 10,
+         'handlePacketReceived(el), el = child-less element, arbitrary tag <= 8 units (except presence/message) in namespace ' + ['http://etherx.jabber.org/streams', 'jabber:client', 'urn:xmpp:sm:3 (with h=<any u32>)', 'arbitrary <= 2 units'][n],
+         tiers=Q if n == 0 else T, timeout_s=400) for n in (0, 1, 2, 3)]
+    + [I('packet_iq_t%d' % t, 'packet_client', 1 | 16 | (1 | t << 2) << 10,
+         'handlePacketReceived(<iq xmlns=jabber:client type=%s id from/>), id/from <= 2 arbitrary units, from present or not' % ['get', 'set', 'result', 'error', '<2 arbitrary units>', '<absent>'][t],
+         tiers=Q if t in (0, 2) else T) for t in range(6)]
+    + [I('packet_features_tls%d_ssl%d_o%d' % (t, l, o), 'packet_client', l | 16 | (2 | t << 2 | o << 5) << 10,
+         'handlePacketReceived(<stream:features>) as a DOM tree parsed by the real QXmppStreamFeatures::parse: starttls %s, local TLS support %s, %s' % (TLS[t], bool(l), 'mechanisms(1 arbitrary) + auth + bind + sm offered' if o else 'nothing else offered'),
+         tiers=Q if (t, l, o) in ((0, 1, 7), (2, 1, 7), (1, 0, 7)) else T) for t in (0, 1, 2) for l in (0, 1) for o in (0, 7)]
+)
 SPEC = dict(
     property='C04',
     groups=[
-        dict(name='step', harness='h.cpp', tus=TUS, models=MODELS, shadow_task=True, loop_bounds={r'^_ZNSt6ranges14__copy_or_move': 110},
-             instances=[
-                 I('start', 'start', 1 | 16, 'arbitrary INV pre-state'),
-             ] + [I('features_tls%d_ssl%d_s%d' % (t, l, k), 'features', l | 16 | t << 5 | k << 7, 'arbitrary INV pre-state; arbitrary features') for t in (0, 1, 2) for l in (0, 1) for k in (0, 1, 2)
-             ] + [I('stream_pre%d_el%d%s' % (pv, ev, 'st' if st else ''), 'stream', 1 | 2 | 4 | pv << 3 | st << 9 | (ev | 2 | 4) << 10, '') for pv in (0, 1) for ev in (0, 1) for st in (0, 1)
-             ] + [I('packet_starttls_ns%d' % n, 'packet_starttls', 1 | 16 | 512 | n << 10, '') for n in (0, 1)
-             ]),
+        dict(name='step', harness='h.cpp', tus=TUS, models=MODELS, shadow_task=True,
+             loop_bounds={r'^_ZNSt6ranges14__copy_or_move': 110, r'firstChildElement': 8, r'iterChildElements|ChildElementIterator': 8},
+             instances=INST),
     ],
-    bounds=[],
-    assumptions=[],
-    outside=[],
+    bounds=[
+        'single inductive steps: ONE event of the remote end applied to an ARBITRARY private state of QXmppOutgoingClient that satisfies INV == (TLS required and link not encrypted => listener is the client itself or the STARTTLS step, and the client is not authenticated); every step proves INV again, so the claims hold along every server script, of any length, as long as the link stays unencrypted',
+        'events: socket started; socket disconnected; stream header with/without version, id, from (values <= 3 arbitrary UTF-16 units); stream features built through the real setters (STARTTLS absent/optional/required x SASL2 absent / without bind2 / with one bind2 feature x 0..1 SASL mechanism of <= 2 units x arbitrary legacy-auth / bind / session / sm / csi modes) and as a DOM tree through the real parser (starttls absent/present/required, with nothing else or with mechanisms + auth + bind + sm); answer to STARTTLS = arbitrary tag <= 8 units in the TLS or an arbitrary namespace; while the client listens: any child-less element with tag <= 8 units in the stream / client / sm / an arbitrary namespace, IQs of every type with id/from <= 2 units',
+        'client configuration: TLSRequired; useSASLAuthentication / useSasl2Authentication / useNonSASLAuthentication / legacy mechanism preference arbitrary; user, domain, password, resource <= 2 arbitrary units; local TLS support (QSslSocket::supportsSsl) both values (case split)',
+        'quick tier = a subset of the case combinations (every event class and every STARTTLS-offer x local-TLS combination at least once); thorough tier = all combinations',
+        'socket log capacity 4 writes per step (asserted as model limit)',
+    ],
+    assumptions=[
+        'QXmppOutgoingClient and QXmppOutgoingClientPrivate live in typed, unconstructed storage and are built field by field (the real constructor creates sockets, timers and DNS look-ups); QXmppConfiguration is the REAL class, set through its public setters; PingManager = two timers of which only stop() (no-op) is called',
+        'what reaches the socket is classified by the TYPE of the serialiser that produced it: serializeXml<StreamOpen|StarttlsRequest|QXmppNonSASLAuthIq|QXmppBindIq|SmResume|SmEnable|SmAck|SmRequest|CsiActive|CsiInactive> and QXmppPacket(QXmppNonza) return a byte block that carries the tag (stream header, starttls, AUTH, BIND, SM-RESUME (carries the resumption token), sm enable, sm ack, csi, STANZA / other nonza); AUTH, BIND, STANZA and SM-RESUME are what must not leave before encryption; the XML text (Qt writer) is not looked at. XmppSocket::sendData (also via SendDataInterface) = ghost log + the property assertion at every write, result arbitrary',
+        'QSslSocket::isEncrypted() is a ghost flag that only QSslSocket::startClientEncryption() sets: the TLS handshake, certificate validation and Qt buffering writes until the handshake finished are trusted; QSslSocket::supportsSsl() is a per-instance constant',
+        'SaslManager::authenticate / Sasl2Manager::authenticate are cut at the entry: they hand one AUTH-classified element to the socket and stay pending (mechanism choice and exchanges: C05/C06); FastTokenManager hooks are empty; XmppSocket::disconnectFromHost is a counter (the real one writes </stream:stream> and closes)',
+        'QXmppTask/QXmppPromise are the assume-guarantee shadow (contract established by C13); signals of QXmppOutgoingClient (connected, disconnected, errorOccurred, elementReceived, iqReceived) are counted, nobody is connected to them; logging is a no-op; QNetworkProxy / QDateTime members are opaque words',
+        'stream management is not active on a link that has not negotiated TLS yet (StreamAckManager::m_enabled == false in the pre-state; QMap<uint,QXmppPacket> default constructor/destructor modelled as an empty word)',
+        'pre-state STARTTLS-requested is produced by running the real handleStreamFeatures on features that require TLS (its continuation is a lambda local to handleStarttls)',
+    ],
+    outside=[
+        'certificate validation, the TLS handshake itself, direct-TLS (LegacySSL / xmpps SRV) connection set-up, DNS look-ups, reconnect paths of _q_socketDisconnected (next SRV address, see-other-host redirect) - they open a NEW connection, for which INV is re-established by the disconnected + start steps',
+        'SASL / SASL2 / FAST mechanism internals (C05/C06): reaching authenticate() at all on an unencrypted link is the violation',
+        'data handed to the stream by the application or by extension managers of QXmppClient (handlers connected to elementReceived / iqReceived, QXmppClient::send...): the encoded program is QXmppOutgoingClient alone',
+        'inbound <presence/> and <message/> elements before encryption (QXmppPresence / QXmppMessage parsing; they only emit a signal), the payload of <stream:error/> (conditions, see-other-host: only setError / socket disconnect follow), children of inbound IQs',
+        'configurations other than TLSRequired (TLSEnabled may legitimately continue without TLS), states in which the link is already encrypted',
+        'strings longer than the stated bounds; more than one SASL mechanism / bind2 feature (content is irrelevant for the branches taken)',
+    ],
 )
